@@ -2,10 +2,11 @@ package main
 
 import (
 	"math/rand"
-	"strconv"
 	"runtime"
+	"strconv"
 	"sync"
 	"sync/atomic"
+	"time"
 
 	"verif/harness/rt"
 )
@@ -159,25 +160,36 @@ func record(n int, seed int64, only string) {
 		// broker must show up as an observation, not hang the recorder)
 		drivers := make(chan struct{})
 		go func() { sw.Wait(); close(drivers) }()
+		settled := false
 	waiting:
-		for {
+		for tries := 0; tries < 60; tries++ {
 			select {
 			case <-drivers:
+				settled = true
 				break waiting
-			default:
+			case <-time.After(time.Duration(1+tries) * time.Millisecond): // pacing only, never a verdict
 				if _, err := rt.QuiesceBudget(40); err == nil {
+					settled = true
 					break waiting
 				}
 			}
 		}
-		// live fixed point (not reachable when two idle workers share a Deque condition variable)
-		budget := 600
-		if (cfg.A == "deque" || cfg.A == "nbdeque" || cfg.A == "lifo") && cfg.W >= 2 {
-			budget = 120 // idle workers on one Deque condition variable keep signalling each other: do not insist
+		if !settled {
+			// drivers blocked and the broker busy for ever (e.g. idle workers of a Deque back-end signalling each
+			// other): no observation is possible - this run is dropped, it is never a verdict
+			w.teardown()
+			rt.Emit(map[string]any{"dropped": "drivers neither finished nor quiescent"})
+			continue
 		}
-		if snap, err := rt.QuiesceBudget(budget); err == nil {
-			lib := w.libGoroutines(snap)
-			w.rec.Log(rt.Event{"ev": "quiescent", "blocked": w.pending(), "depth": w.depth(), "live": len(lib), "where": where(lib)})
+		// live fixed point.  Two or more idle workers on one Deque condition variable keep signalling each other
+		// (DESIGN 3.3: never quiescent, not a listed property, and a snapshot of spinning goroutines is costly):
+		// for those configurations only the post-shutdown observation is made.
+		pingpong := (cfg.A == "deque" || cfg.A == "nbdeque" || cfg.A == "lifo") && cfg.W >= 2
+		if !pingpong {
+			if snap, err := rt.QuiesceBudget(600); err == nil {
+				lib := w.libGoroutines(snap)
+				w.rec.Log(rt.Event{"ev": "quiescent", "blocked": w.pending(), "depth": w.depth(), "live": len(lib), "where": where(lib)})
+			}
 		}
 		// shutdown
 		if rng.Intn(3) == 0 {
@@ -198,7 +210,8 @@ func record(n int, seed int64, only string) {
 				w.guarded(id, func() string { w.b.Wait(ctx); return "ok" })
 			}()
 		}
-		ok := w.observe()
+		// (bounded: a broker that cannot be stopped while Deque workers keep signalling each other never settles)
+		ok := w.observeBudget(300)
 		evs := w.rec.Events()
 		w.teardown()
 		if ok {
